@@ -219,6 +219,10 @@ where
                                         if ended.swap(true, AtomicOrdering::AcqRel) {
                                             return;
                                         }
+                                        // the sink first: while the siblings are being stopped
+                                        // it could still be made to dispose, and would then be
+                                        // handed this Error after it had left
+                                        call!(sink, Message::Error(error), "to sink: {message:?}");
                                         for j in 0..n {
                                             if j != i {
                                                 if let Some(source_talkback) =
@@ -232,7 +236,6 @@ where
                                                 }
                                             }
                                         }
-                                        call!(sink, Message::Error(error), "to sink: {message:?}");
                                     },
                                     Message::Terminate => {
                                         source_talkbacks[i].store(None);
